@@ -1,8 +1,230 @@
 import PyresampleModel.Model.C16
 
 /-
-  C16 — property theorems (stub: none yet).
+  C16 — property theorems on the combinatorics of the boundary ring.
 -/
 namespace PyresampleModel.C16
+
+/-- a good side selection: strictly increasing pixel indices from 0 to n-1 -/
+structure Good (n : Nat) (sel : List Nat) : Prop where
+  first : sel.head? = some 0
+  last  : sel.getLast? = some (n - 1)
+  inc   : sel.Pairwise (· < ·)
+
+theorem aux_chain_pairwise : ∀ (l : List Nat), (l.zip l.tail).all (fun p => decide (p.1 < p.2)) = true → l.Pairwise (· < ·) := by
+  intro l
+  induction l with
+  | nil => intro _; exact List.Pairwise.nil
+  | cons a as ih =>
+    intro h
+    cases as with
+    | nil => exact List.pairwise_singleton _ _
+    | cons b bs =>
+      simp only [List.tail_cons, List.zip_cons_cons, List.all_cons, Bool.and_eq_true, decide_eq_true_eq] at h
+      have hb := ih (by simpa using h.2)
+      refine List.Pairwise.cons ?_ hb
+      intro x hx
+      rcases List.mem_cons.mp hx with rfl | hx
+      · exact h.1
+      · have := (List.pairwise_cons.mp hb).1 x hx
+        omega
+
+/-- the executable check used on the real selections implies the specification -/
+theorem goodAsc_sound (n : Nat) (sel : List Nat) (h : goodAsc n sel = true) : Good n sel := by
+  simp only [goodAsc, Bool.and_eq_true, beq_iff_eq] at h
+  exact ⟨h.1.1, h.1.2, aux_chain_pairwise sel h.2⟩
+
+theorem aux_good_bounds {n : Nat} {sel : List Nat} (g : Good n sel) : ∀ x ∈ sel, x ≤ n - 1 := by
+  intro x hx
+  obtain ⟨l, hl⟩ : ∃ l, sel.getLast? = some l := ⟨_, g.last⟩
+  have hlast := g.last
+  -- every element is ≤ the last one in a strictly increasing list
+  have : ∀ (s : List Nat), s.Pairwise (· < ·) → ∀ m, s.getLast? = some m → ∀ y ∈ s, y ≤ m := by
+    intro s
+    induction s with
+    | nil => intro _ m _ y hy; simp at hy
+    | cons a as ih =>
+      intro hp m hm y hy
+      cases as with
+      | nil => simp at hm hy; omega
+      | cons b bs =>
+        have hm' : (b :: bs).getLast? = some m := by simpa [List.getLast?_cons_cons] using hm
+        rcases List.mem_cons.mp hy with rfl | hy
+        · have h1 := (List.pairwise_cons.mp hp).1 b List.mem_cons_self
+          have h2 := ih (List.pairwise_cons.mp hp).2 m hm' b List.mem_cons_self
+          omega
+        · exact ih (List.pairwise_cons.mp hp).2 m hm' y hy
+  exact this sel g.inc _ hlast x hx
+
+/-- **every boundary vertex is one of the geometry's own edge pixels** -/
+theorem vertices_are_edge_pixels (H W : Nat) (selT selR selB selL : List Nat)
+    (gT : Good W selT) (gR : Good H selR) (gB : Good W selB.reverse) (gL : Good H selL.reverse)
+    (hH : 1 ≤ H) (hW : 1 ≤ W) :
+    ∀ s ∈ sides H W selT selR selB selL, ∀ p ∈ s,
+      p.1 < H ∧ p.2 < W ∧ (p.1 = 0 ∨ p.1 = H - 1 ∨ p.2 = 0 ∨ p.2 = W - 1) := by
+  intro s hs p hp
+  simp only [sides, List.mem_cons, List.not_mem_nil, or_false] at hs
+  rcases hs with rfl | rfl | rfl | rfl
+  · obtain ⟨c, hc, rfl⟩ := List.mem_map.mp hp
+    have := aux_good_bounds gT c hc
+    exact ⟨by omega, by omega, Or.inl rfl⟩
+  · obtain ⟨r, hr, rfl⟩ := List.mem_map.mp hp
+    have := aux_good_bounds gR r hr
+    exact ⟨by omega, by omega, Or.inr (Or.inr (Or.inr rfl))⟩
+  · obtain ⟨c, hc, rfl⟩ := List.mem_map.mp hp
+    have := aux_good_bounds gB c (List.mem_reverse.mpr hc)
+    exact ⟨by omega, by omega, Or.inr (Or.inl rfl)⟩
+  · obtain ⟨r, hr, rfl⟩ := List.mem_map.mp hp
+    have := aux_good_bounds gL r (List.mem_reverse.mpr hr)
+    exact ⟨by omega, by omega, Or.inr (Or.inr (Or.inl rfl))⟩
+
+theorem aux_rev_head {sel : List Nat} {n : Nat} (g : Good n sel.reverse) :
+    sel.head? = some (n - 1) ∧ sel.getLast? = some 0 := by
+  have h1 := g.first
+  have h2 := g.last
+  rw [List.head?_reverse] at h1
+  rw [List.getLast?_reverse] at h2
+  exact ⟨h2, h1⟩
+
+/-- **each side ends where the next begins, and the ring is closed** -/
+theorem sides_chain (H W : Nat) (selT selR selB selL : List Nat)
+    (gT : Good W selT) (gR : Good H selR) (gB : Good W selB.reverse) (gL : Good H selL.reverse) :
+    let ss := sides H W selT selR selB selL
+    (ss[0]!.getLast? = ss[1]!.head? ∧ ss[1]!.getLast? = ss[2]!.head? ∧
+     ss[2]!.getLast? = ss[3]!.head? ∧ ss[3]!.getLast? = ss[0]!.head?) ∧
+    ss[0]!.head? = some (0, 0) := by
+  obtain ⟨hB1, hB2⟩ := aux_rev_head gB
+  obtain ⟨hL1, hL2⟩ := aux_rev_head gL
+  simp only [sides, List.getElem!_cons_zero, List.getElem!_cons_succ, List.getLast?_map, List.head?_map,
+    gT.first, gT.last, gR.first, gR.last, hB1, hB2, hL1, hL2, Option.map_some, and_self]
+
+
+theorem aux_asc_nodup {l : List Nat} (h : l.Pairwise (· < ·)) : l.Nodup :=
+  h.imp (fun hlt => Nat.ne_of_lt hlt)
+
+theorem aux_asc_dropLast_lt : ∀ (l : List Nat) (m : Nat), l.Pairwise (· < ·) → l.getLast? = some m →
+    ∀ x ∈ l.dropLast, x < m := by
+  intro l
+  induction l with
+  | nil => intro m _ _ x hx; simp at hx
+  | cons a as ih =>
+    intro m hp hm x hx
+    cases as with
+    | nil => simp at hx
+    | cons b bs =>
+      have hm' : (b :: bs).getLast? = some m := by simpa [List.getLast?_cons_cons] using hm
+      simp only [List.dropLast_cons_cons, List.mem_cons] at hx
+      rcases hx with rfl | hx
+      · have hmm : m ∈ (b :: bs) := List.mem_of_getLast? hm'
+        exact (List.pairwise_cons.mp hp).1 m hmm
+      · exact ih m (List.pairwise_cons.mp hp).2 hm' x hx
+
+theorem aux_tail_pos : ∀ (l : List Nat), l.Pairwise (· < ·) → l.head? = some 0 → ∀ x ∈ l.tail, 0 < x := by
+  intro l hp hh x hx
+  cases l with
+  | nil => simp at hx
+  | cons a as =>
+    simp at hh; subst hh
+    exact (List.pairwise_cons.mp hp).1 x hx
+
+theorem aux_desc_dropLast_pos {n : Nat} {sel : List Nat} (g : Good n sel.reverse) : ∀ x ∈ sel.dropLast, 0 < x := by
+  intro x hx
+  have : sel.dropLast = (sel.reverse.tail).reverse := by
+    rw [List.tail_reverse, List.reverse_reverse]
+  rw [this] at hx
+  exact aux_tail_pos _ g.inc g.first x (List.mem_reverse.mp hx)
+
+theorem aux_desc_nodup {n : Nat} {sel : List Nat} (g : Good n sel.reverse) : sel.Nodup := by
+  have := aux_asc_nodup g.inc
+  exact (List.pairwise_reverse.mp this).imp (fun h => Ne.symm h)
+
+theorem aux_dropLast_map {α β} (f : α → β) (l : List α) : (l.map f).dropLast = l.dropLast.map f := by
+  induction l with
+  | nil => rfl
+  | cons a as ih =>
+    cases as with
+    | nil => rfl
+    | cons b bs => simp only [List.map_cons, List.dropLast_cons_cons] at ih ⊢; rw [ih]
+
+/-- **no vertex is repeated within the ring** (at least 2 rows and 2 columns, good selections on
+all four sides — which is what numpy delivers whenever the requested count does not exceed the side) -/
+theorem contour_no_repeat (H W : Nat) (selT selR selB selL : List Nat)
+    (gT : Good W selT) (gR : Good H selR) (gB : Good W selB.reverse) (gL : Good H selL.reverse)
+    (hH : 2 ≤ H) (hW : 2 ≤ W) :
+    (contour (sides H W selT selR selB selL)).Nodup := by
+  simp only [contour, sides, List.flatMap_cons, List.flatMap_nil, List.append_nil, aux_dropLast_map]
+  have nT : (selT.dropLast.map (fun c => ((0 : Nat), c))).Nodup :=
+    List.Pairwise.map _ (fun a b (h : a ≠ b) => by simpa using h) ((aux_asc_nodup gT.inc).sublist (List.dropLast_sublist _))
+  have nR : (selR.dropLast.map (fun r => (r, W - 1))).Nodup :=
+    List.Pairwise.map _ (fun a b (h : a ≠ b) => by simpa using h) ((aux_asc_nodup gR.inc).sublist (List.dropLast_sublist _))
+  have nB : (selB.dropLast.map (fun c => (H - 1, c))).Nodup :=
+    List.Pairwise.map _ (fun a b (h : a ≠ b) => by simpa using h) ((aux_desc_nodup gB).sublist (List.dropLast_sublist _))
+  have nL : (selL.dropLast.map (fun r => (r, (0 : Nat)))).Nodup :=
+    List.Pairwise.map _ (fun a b (h : a ≠ b) => by simpa using h) ((aux_desc_nodup gL).sublist (List.dropLast_sublist _))
+  have bT := aux_asc_dropLast_lt selT (W - 1) gT.inc gT.last
+  have bR := aux_asc_dropLast_lt selR (H - 1) gR.inc gR.last
+  have bB := aux_desc_dropLast_pos gB
+  have bL := aux_desc_dropLast_pos gL
+  rw [List.nodup_append]
+  refine ⟨nT, ?_, ?_⟩
+  · rw [List.nodup_append]
+    refine ⟨nR, ?_, ?_⟩
+    · rw [List.nodup_append]
+      refine ⟨nB, nL, ?_⟩
+      intro p hp q hq hpq
+      obtain ⟨c, hc, rfl⟩ := List.mem_map.mp hp
+      obtain ⟨r, hr, rfl⟩ := List.mem_map.mp hq
+      simp only [Prod.mk.injEq] at hpq
+      have := bB c hc; omega
+    · intro p hp q hq hpq
+      obtain ⟨r, hr, rfl⟩ := List.mem_map.mp hp
+      have := bR r hr
+      rcases List.mem_append.mp hq with hq | hq
+      · obtain ⟨c, hc, rfl⟩ := List.mem_map.mp hq
+        simp only [Prod.mk.injEq] at hpq; omega
+      · obtain ⟨r', hr', rfl⟩ := List.mem_map.mp hq
+        simp only [Prod.mk.injEq] at hpq; omega
+  · intro p hp q hq hpq
+    obtain ⟨c, hc, rfl⟩ := List.mem_map.mp hp
+    have := bT c hc
+    rcases List.mem_append.mp hq with hq | hq
+    · obtain ⟨r, hr, rfl⟩ := List.mem_map.mp hq
+      simp only [Prod.mk.injEq] at hpq; omega
+    · rcases List.mem_append.mp hq with hq | hq
+      · obtain ⟨c', hc', rfl⟩ := List.mem_map.mp hq
+        simp only [Prod.mk.injEq] at hpq; omega
+      · obtain ⟨r, hr, rfl⟩ := List.mem_map.mp hq
+        have := bL r hr
+        simp only [Prod.mk.injEq] at hpq; omega
+
+/-- **reversal**: `_reverse_boundaries` turns the four sides into the sides of the same ring walked
+the other way round: the concatenated ring of the reversed sides is the reverse of the ring -/
+theorem reverse_ring (ss : List (List Px)) : (reverseSides ss).flatten = ss.flatten.reverse := by
+  simp only [reverseSides]
+  induction ss with
+  | nil => rfl
+  | cons s rest ih =>
+    simp only [List.map_cons, List.reverse_cons, List.flatten_append, List.flatten_cons, List.flatten_nil,
+      List.append_nil, List.reverse_append, ih]
+
+/-- reversing twice gives the sides back -/
+theorem reverse_involutive (ss : List (List Px)) : reverseSides (reverseSides ss) = ss := by
+  simp only [reverseSides, List.map_reverse, List.reverse_reverse, List.map_map]
+  have : (List.reverse ∘ List.reverse : List Px → List Px) = id := by funext l; simp
+  rw [this, List.map_id]
+
+/-- without a vertex limit (all pixels of each side) the selections are good: the ring is the full perimeter -/
+theorem full_side_good (n : Nat) (hn : 1 ≤ n) : Good n (List.range n) := by
+  refine ⟨?_, ?_, ?_⟩
+  · cases n with
+    | zero => omega
+    | succ m => simp [List.range_succ_eq_map]
+  · cases n with
+    | zero => omega
+    | succ m => simp [List.range_succ]
+  · exact List.pairwise_lt_range
+
+example : Good 4 [0, 1, 3] := goodAsc_sound 4 [0, 1, 3] (by decide)
+example : (contour (sides 3 4 [0, 1, 3] [0, 2] [3, 2, 0] [2, 0])).Nodup := by decide
 
 end PyresampleModel.C16
